@@ -1,6 +1,7 @@
 import SamplyModel.Lemmas.SymbolList
 import SamplyModel.Lemmas.BreakpadLookup
 import SamplyModel.Lemmas.JitDumpIndex
+import SamplyModel.Lemmas.ObjectFile
 /-!
 # C05 — symbol lookup returns the function that contains the address, consistently
 
@@ -241,6 +242,67 @@ theorem C05_complete_obj_enumerated (demangle : Name → Name) (d : Desc) (s : N
 
 
 end Obj
+
+/-! ## from the object file to the symbol list (ELF, Mach-O, PE): `Model/ObjectFile.lean` -/
+
+section ObjFileSec
+open SymList ObjFile
+
+/-- PE: `function_start_and_end_addresses` yields one (start, end) pair per complete 12-byte entry of `.pdata`; pair
+`k` is decoded from the bytes at offset `12 * k` (start = little-endian bytes 0..4, end = bytes 4..8 of that entry:
+see the defining equation of `pdataAddrs`, instantiated in the second conjunct). -/
+theorem C05_pdata_spec (b : List UInt8) (k : Nat) :
+    (pdataAddrs b).length = b.length / 12 ∧
+    (pdataAddrs b)[k]? = (pdataAddrs (b.drop (12 * k))).head? ∧
+    (∀ b0 b1 b2 b3 b4 b5 b6 b7 b8 b9 b10 b11 rest,
+      b.drop (12 * k) = b0 :: b1 :: b2 :: b3 :: b4 :: b5 :: b6 :: b7 :: b8 :: b9 :: b10 :: b11 :: rest →
+      (pdataAddrs b)[k]? = some (le32 b0 b1 b2 b3, le32 b4 b5 b6 b7)) := by
+  have hk : (pdataAddrs b)[k]? = (pdataAddrs (b.drop (12 * k))).head? := by
+    rw [← pdataAddrs_drop, List.head?_drop]
+  refine ⟨pdataAddrs_length b, hk, ?_⟩
+  intro b0 b1 b2 b3 b4 b5 b6 b7 b8 b9 b10 b11 rest h
+  rw [hk, h]
+  simp [pdataAddrs]
+
+/-- Mach-O: the fuel of the LC_FUNCTION_STARTS loop is adequate — any larger fuel gives the same list (every decoded
+delta consumes at least one byte), so `machoStarts` is the unbounded loop of the code. -/
+theorem C05_macho_starts_fuel (bytes : List UInt8) (extra : Nat) :
+    machoStartsFrom (bytes.length + 1 + extra) bytes 0 = machoStarts bytes :=
+  machoStartsFrom_fuel bytes (bytes.length + 1) extra 0 (by omega)
+
+/-- The whole pipeline, for every presentation of an ELF / Mach-O / PE file (any segments, sections, symbols,
+exports, `.eh_frame` FDEs / LC_FUNCTION_STARTS bytes / `__unwind_info` starts / `.pdata` bytes): if loading does not
+panic, every successful lookup on the resulting map, in any address form, returns a symbol that contains the relative
+address the lookup address stands for, that is the entry of the map's enumeration with the greatest start not above
+it (unique), with the demangled name of that entry. -/
+theorem C05_objfile_sound (demangle : Name → Name) (framesPanic : Nat → Bool) (p : Pres) (m : ObjMap)
+    (hm : mapOf p = some m) (a : Addr) (r : SymInfo) (h : lookupSync demangle framesPanic m a = .hit r) :
+    ∃ svma rel n, toSvmaRel m a = .hit (svma, rel) ∧
+      r.start ≤ rel ∧ (∃ sz, r.size = some sz ∧ rel < r.start + sz) ∧
+      (r.start, n) ∈ iterSymbols m.entries ∧ r.name = demangle n ∧
+      (∀ q ∈ iterSymbols m.entries, q.1 ≤ rel → q.1 ≤ r.start) ∧
+      (∀ n', (r.start, n') ∈ iterSymbols m.entries → n' = n) := by
+  obtain ⟨d, _, _, rfl⟩ := mapOf_spec hm
+  obtain ⟨svma, rel, hto, h1, h2⟩ := C05_contains_obj demangle framesPanic d (rangesOf p) a r h
+  obtain ⟨svma', rel', n, hto', h3, h4, _, h5, h6⟩ := C05_greatest_obj demangle framesPanic d (rangesOf p) a r h
+  rw [hto] at hto'
+  injection hto' with e
+  injection e with e1 e2
+  subst e1; subst e2
+  exact ⟨svma, rel, n, hto, h1, h2, h3, h4, h5, h6⟩
+
+/-- … and no spurious miss on such a map: a named entry followed by another entry answers every address of its
+range, in every address form that stands for it. -/
+theorem C05_objfile_complete (demangle : Name → Name) (framesPanic : Nat → Bool) (p : Pres) (m : ObjMap)
+    (hm : mapOf p = some m) (a : Addr) (svma rel : Nat) (hto : toSvmaRel m a = .hit (svma, rel))
+    (i : Nat) (e nxt : Entry) (n : Name) (he : m.entries[i]? = some e) (hn : m.entries[i + 1]? = some nxt)
+    (hname : e.kind.name e.addr = some n) (h1 : e.addr ≤ rel) (h2 : rel < nxt.addr)
+    (hf : framesPanic svma = false) :
+    lookupSync demangle framesPanic m a = .hit ⟨e.addr, some (nxt.addr - e.addr), demangle n⟩ := by
+  obtain ⟨d, _, _, rfl⟩ := mapOf_spec hm
+  exact C05_complete_obj demangle framesPanic d (rangesOf p) a svma rel hto i e nxt n he hn hname h1 h2 hf
+
+end ObjFileSec
 
 /-! ## Breakpad -/
 
@@ -532,6 +594,30 @@ example : build C05_exDesc = C05_exEntries ∧
     rw [hp]
     simp [sortEntries, List.mergeSort, List.MergeSort.Internal.splitInTwo, dedup, dedupAux, C05_exEntries]
   rw [hb]
+  decide
+
+/-- a two-entry `.pdata` (12 bytes each; the third word is the unwind-info address) and a trailing partial entry -/
+example : ObjFile.pdataAddrs [0x00, 0x10, 0, 0, 0x2a, 0x10, 0, 0, 9, 9, 9, 9, 0x30, 0x10, 0, 0, 0x80, 0x10, 0, 0, 1, 1, 1, 1, 7, 7]
+    = [(0x1000, 0x102a), (0x1030, 0x1080)] := by decide
+/-- LC_FUNCTION_STARTS: deltas 0x1000, 0x20, 0x185 (two bytes), terminator -/
+example : ObjFile.machoStarts [0x80, 0x20, 0x20, 0x85, 0x03, 0x00, 0x55] = some [0x1000, 0x1020, 0x11a5] := by decide
+/-- a Mach-O presentation: `__TEXT` at 0x100000000, one text section, `_main` in the symbol table, two function starts
+without symbols; loading succeeds and the relative base is the `__TEXT` address -/
+def C05_exPres : ObjFile.Pres where
+  isElf := false
+  objBase := 0
+  segments := [⟨some [95, 95, 80, 65, 71, 69, 90, 69, 82, 79], 0, 0, 0⟩, ⟨some ObjFile.textSegName, 0x100000000, 0, 0x4000⟩]
+  sections := [⟨1, .text, false, 0x100001000, 0x200, some (0x1000, 0x200)⟩]
+  symbols := [⟨0x100001020, 0, .text, some 1, some [95, 109]⟩]
+  dynSymbols := []
+  exports := some []
+  entry := 0
+  funcs := .macho (some [0x80, 0x20, 0x20, 0x40, 0x00]) none
+
+example : ObjFile.relBase C05_exPres = 0x100000000 := by decide
+example : (ObjFile.descOf C05_exPres).map (·.funcStarts) = some (some [0x1000, 0x1020, 0x1060]) := by decide
+example : (ObjFile.mapOf C05_exPres).isSome = true := by
+  simp [ObjFile.mapOf, ObjFile.descOf, ObjFile.funcAddrs, C05_exPres, buildSafe]
   decide
 
 def C05_exJit : List JitDump.Entry := [⟨98, 5, some [97]⟩, ⟨161, 7, some [98]⟩]
